@@ -215,8 +215,10 @@ def vary(rng, st):
 
 def damage_req(rng, s):
     """token- and character-level damage to a requirement string"""
-    k = rng.randrange(8)
+    k = rng.randrange(9)
     i = rng.randrange(len(s) + 1)
+    if k == 8:
+        return GV.confuse(rng, s)          # a letter/digit/separator replaced by a non-ASCII look-alike or case partner
     if k == 0:
         return s[:i] + rng.choice(GV.ODD_CHARS) + s[i:]
     if k == 1 and s:
